@@ -62,6 +62,7 @@ theorem signal_transparent (pre post : List NetNode) (s d w : Nat) (n : NetNode)
   | input k => rfl
   | signal => simp only [gather_reroute _ s d n.ins hv]
   | node k ty => simp only [gather_reroute _ s d n.ins hv]
+  | tristate k => simp only [gather_reroute _ s d n.ins hv]
 
 /-- inserting a pass-through signal after node `d` (a named copy, a tap, an attribute carrier) does not change any existing value:
     the values of the old nodes are a prefix of the new evaluation -/
